@@ -110,7 +110,8 @@ def _load(key: str) -> bytes:
 
 SYNTH_EXT = {"rtf-big-picture": ".rtf", "mbox-raw-8bit-headers": ".mbox", "7z-huge-file-count": ".7z", "7z-huge-stream-count": ".7z", "zip-huge-entry-count": ".zip",
              "zip-ascii-then-nonascii": ".zip", "mbox-ascii-then-nonascii": ".mbox",
-             "7z-self-referential-encoded-header": ".7z", "7z-encoded-header-chain": ".7z"}
+             "7z-self-referential-encoded-header": ".7z", "7z-encoded-header-chain": ".7z",
+             "tar-absolute-member-names": ".tar", "zip-absolute-member-names": ".zip"}
 
 
 def _synthetic(name: str) -> bytes:
@@ -137,6 +138,23 @@ def _synthetic(name: str) -> bytes:
             body, off = first, 18
         start = _st.pack("<QQI", off, len(hdr), _zl.crc32(hdr) & 0xFFFFFFFF)
         return b"7z\xbc\xaf\x27\x1c\x00\x04" + _st.pack("<I", _zl.crc32(start) & 0xFFFFFFFF) + start + body + hdr
+    if name in ("tar-absolute-member-names", "zip-absolute-member-names"):
+        # members stored under absolute names (tar -P, backup tools, raw ZipInfo writers) next to relative ones
+        import io as _io, tarfile as _tf, zipfile as _zf
+        members = [("notes/readme.txt", b"qb00001z relative member\n"), ("/tmp/notes.txt", b"qb00002z absolute member\n"),
+                   ("/var/backup/2024/report.md", b"# qb00003z absolute, deeper\n"), ("/top.csv", b"a,b\nqb00004z,1\n")]
+        buf = _io.BytesIO()
+        if name.startswith("tar"):
+            with _tf.open(fileobj=buf, mode="w") as t:
+                for n_, d_ in members:
+                    ti = _tf.TarInfo(n_)
+                    ti.size = len(d_)
+                    t.addfile(ti, _io.BytesIO(d_))
+        else:
+            with _zf.ZipFile(buf, "w") as z:
+                for n_, d_ in members:
+                    z.writestr(_zf.ZipInfo(n_), d_)
+        return buf.getvalue()
     if name == "zip-ascii-then-nonascii":
         import io as _io, zipfile as _zf
         buf = _io.BytesIO()
